@@ -26,6 +26,9 @@ where
 
     fn get(&mut self, key: &K) -> Option<&V>;
 
+    /// Like [Self::get], but doesn't count as a use of the entry (i.e. doesn't affect the LRU order in an LRU cache)
+    fn peek(&self, key: &K) -> Option<&V>;
+
     fn remove(&mut self, key: &K) -> Option<V>;
 
     fn iter(&self) -> Self::ItemIter<'_>;
